@@ -47,8 +47,11 @@ def check_selectors(chk, rep, repo):
     seen = set()
     for kind, cls, m in WALKS:
         w = model_walk(repo, cls, m) if kind == "model" else graph_walk(repo, cls, m)
-        for form, flag, pre, fn, ev in weight_terms(w):
-            key = (ev.fn.fq, ev.line)
+        wts = weight_terms(w)
+        if not wts:
+            raise AnalysisError(f"{cls}.{m}: no arc-weight selector found (the rule would pass vacuously)")
+        for form, flag, pre, fn, ev in wts:
+            key = (ev.fn.fq, ev.line, w.entry.fq)
             if key in seen:
                 continue
             seen.add(key)
@@ -76,7 +79,7 @@ def check_selectors(chk, rep, repo):
                               f"({show(ma)[:50] if ma else '?'}, {show(mb)[:50] if mb else '?'})")
             rep.ev("SEL-pair", ev, ok, detail, construct=f"node pair of selector at {ev.fn.qual}: {ev.text()[:80]}")
         run_kinds(rep, w, rules=("K2",))
-    chk.floor("arc-weight selector sites", len(seen), 10)
+    chk.floor("arc-weight selector sites (per analysed entry point)", len(seen), 8)
     # argument positions at the calls into the KNN subgraph
     n_calls = 0
     for cls, m in (("KNNSupervisedOPF", "fit"), ("UnsupervisedOPF", "fit")):
@@ -235,18 +238,19 @@ def check_builders(chk, rep, repo):
           and e.target[1][1][0] == "alloc"]
     ok = False
     if len(st) == 1 and len(st[0].loops) == 2:
+        from ..schema import node_loop
         e = st[0]
         li, lj = w.loops[e.loops[0]], w.loops[e.loops[1]]
-        i, j = ("iter", li.domain, li.lid), ("iter", lj.domain, lj.lid)
-        full = count_of(li.domain[2][-1]) == G and count_of(lj.domain[2][-1]) == G and len(li.domain[2]) == 1 \
-            and len(lj.domain[2]) == 1
-        node = lambda t: ("idx", ("attr", G, "nodes"), t)
-        okv = e.value == ("call", ("attr", ("self",), "distance_fn"),
-                          (("attr", node(i), "features"), ("attr", node(j), "features")), ())
+        nli, nlj = node_loop(li), node_loop(lj)
+        full = nli is not None and nlj is not None and nli[0] == G and nlj[0] == G and nli[1] is not None \
+            and nlj[1] is not None
+        i, j = (nli[1], nlj[1]) if full else (None, None)
+        okv = full and e.value == ("call", ("attr", ("self",), "distance_fn"),
+                                    (("attr", nli[2], "features"), ("attr", nlj[2], "features")), ())
         D = e.target[1][1]
         okdt = not D[3] or dict(D[3]) in ({"dtype": ("builtin", "float")}, {"dtype": ("mod", "numpy.float64")})
         ok = full and okv and e.target[1][2] == i and e.target[2] == j and not e.guards and okdt
-        rets = [r for r in w.events if r.kind == "return"]
+        rets = [r for r in w.events if r.kind == "return" and r.fn is w.entry]
         alg = TermAlgebra()
         okn = False
         for r in rets:
@@ -311,7 +315,7 @@ def check_file_agreement(chk, rep, repo):
     delims = {}
     for ext, loader in readers.items():
         lf = repo.need_function("opfython.stream.loader", loader)
-        lw = Walker(repo, lf, inline=lambda f: False)
+        lw = Walker(repo, lf, inline=_private_same_module(lf))
         calls = [e for e in lw.events if e.kind == "call" and e.name == "numpy.loadtxt"]
         if len(calls) != 1:
             raise AnalysisError(f"{loader}: expected one np.loadtxt call")
